@@ -281,6 +281,8 @@ func (x *Exec) callModifies(c *ssa.CallCommon) ([]string, bool) {
 				switch typeStr(r.Type()) {
 				case "*bytes.Buffer", "*strings.Builder":
 					return []string{"alloc", "ghost:buf"}, false
+				case "*sync.Pool":
+					return []string{"alloc", "ghost:buf", "ghost:inpool"}, false
 				}
 			}
 			return []string{"alloc"}, false
